@@ -99,6 +99,7 @@ class SpecEnv(object):
         self.depth = 0
         self.max_unfold = 2
         self.exc_names = {}
+        self.missing_event_notes = []
         self._install_prims()
 
     # -- registration -------------------------------------------------------------------------
@@ -188,8 +189,11 @@ class SpecEnv(object):
         try:
             return self._evaluate(engine, expr, st, pre, scope)
         except IndexError:
-            raise engine_checker_error("spec expression refers to a ghost event that does not exist on this path: %r "
-                                       "(trace: %s)" % (expr, [e[:2] for e in st.trace]))
+            # the clause talks about a ghost event (a call, a delegated call) that did not happen on this path:
+            # the clause is false there
+            self.missing_event_notes.append("%r refers to a ghost event that does not exist (trace: %s)" % (
+                expr, [e[:2] for e in st.trace]))
+            return False, []
 
     def _evaluate(self, engine, expr, st, pre, scope):
         node = self.expr_cache.get(expr)
@@ -362,6 +366,7 @@ class SpecEnv(object):
         val_contains = U("val_contains", Val, Val, Bool)
         dict_of = U("dict_of", Val, Val)
         iter_items = U("iter_items", Val, VL)
+        subclass_inst = U("subclass_inst", Int, Int, Bool)
 
         def p_be32(ctx, n):
             t = be32(zint(n))
